@@ -16,6 +16,7 @@ func init() { register("C19", propC19, false, false) }
 func propC19(c *Ctx) {
 	c.R.Explanation = "Decides the mechanism of the ban for every directive kind: (a) every construction of a Directive from a scanned keyword is dominated by a comma-ok lookup of the ban set keyed by the kind obtained from NewDirectiveType, whose hit branch returns a located error (so directives at top level, in included files and inside MACRO bodies, pasted or not, are tested); (b) the INCLUDE branch of the scan loop consults the ban with key directive.Include before any file-system access; (c) addDirective consults it before dispatch; (d) the ban set is written only by WithBannedDirectives into a map allocated per core, and read only through by-kind lookups, so an unused ban changes nothing; (e) a banned keyword is seen by the scanner after a Description whatever the line ends are (keyword pre-filters, end-of-Description predicate, LF/CR symmetry of the automaton). Not decided: that the error message text/line equals the expected one for every layout."
 	c.ruleC19()
+	c.ruleBanKeyIsTheKind("C19-BAN-KEY-IS-THE-KIND")
 	c.ruleSameSource() // the refusal is located on the banned directive: file and index of every error come from one object
 	// a directive can only be refused if it is seen: after the free text of a Description the next keyword must be
 	// recognised whatever the line ends of the file are
@@ -544,3 +545,99 @@ func (c *Ctx) ruleC19() {
 }
 
 var _ = packages.NeedName
+
+// ---------- a ban is asked about the directive at hand ----------
+
+// ruleBanKeyIsTheKind: "a ban changes nothing else". Every lookup of the ban set refuses the directive being handled
+// when ITS kind is banned. A lookup keyed by the constant of another kind (is URL banned? then refuse this GET with a
+// path; is TYPE banned? then refuse this TAG) makes a ban reject projects in which the banned kind does not occur.
+func (c *Ctx) ruleBanKeyIsTheKind(rule string) {
+	r := c.R
+	r.Rule(rule, "every lookup of the ban set (comma-ok index of core.bannedDirectives or a membership predicate over it, hit branch returning an error) is keyed by the kind of the directive at hand: <directive>.Type(), a local only assigned from directive.NewDirectiveType(<keyword>) or from <directive>.Type(), or - in the INCLUDE handler, where no Directive is built - the constant directive.Include. A constant of another kind as the key makes one ban refuse another directive", 3)
+	ban := c.coreField("bannedDirectives")
+	if ban == nil {
+		r.Undecided(rule, "anchor", "field core.JApiCore.bannedDirectives not found", "")
+		return
+	}
+	incl := c.enumConst("Include")
+	inclHandler := c.fn("core", "JApiCore.processInclude")
+	n := 0
+	for _, f := range c.libFns() {
+		pk := f.Pkg
+		for i, l := range c.banLookups(f, ban) {
+			n++
+			key := fmt.Sprintf("%s | lookup #%d keyed by %s", f.Name(), i+1, exprString(l.key))
+			why := ""
+			switch k := ast.Unparen(l.key).(type) {
+			case *ast.CallExpr:
+				if sel, ok := ast.Unparen(k.Fun).(*ast.SelectorExpr); !ok || sel.Sel.Name != "Type" || len(k.Args) != 0 {
+					why = "the key is the result of " + exprString(k.Fun)
+				}
+			case *ast.Ident, *ast.SelectorExpr:
+				if co := constObj(pk, k); co != nil {
+					if incl != nil && co == incl && inclHandler != nil && f.Obj == inclHandler.Obj {
+						break
+					}
+					why = "the key is the constant " + co.Name() + ", whatever directive is being handled"
+					break
+				}
+				id, isId := k.(*ast.Ident)
+				if !isId {
+					why = "the key is " + exprString(k)
+					break
+				}
+				obj := pk.TypesInfo.Uses[id]
+				// a local / parameter of the enumeration type: every assignment must come from NewDirectiveType or .Type()
+				if paramIndexOf(f, id) >= 0 {
+					break // handed in: the callers' argument is the kind of what they handle (C19-BAN-AT-CREATION follows it)
+				}
+				okSrc := true
+				ast.Inspect(f.Decl.Body, func(m ast.Node) bool {
+					as, isAs := m.(*ast.AssignStmt)
+					if !isAs {
+						return true
+					}
+					for j, lhs := range as.Lhs {
+						lid, isL := lhs.(*ast.Ident)
+						if !isL || pk.TypesInfo.ObjectOf(lid) != obj {
+							continue
+						}
+						rhs := as.Rhs[0]
+						if len(as.Lhs) == len(as.Rhs) {
+							rhs = as.Rhs[j]
+						}
+						call, isCall := ast.Unparen(rhs).(*ast.CallExpr)
+						if !isCall {
+							okSrc = false
+							continue
+						}
+						name := ""
+						switch fun := ast.Unparen(call.Fun).(type) {
+						case *ast.SelectorExpr:
+							name = fun.Sel.Name
+						case *ast.Ident:
+							name = fun.Name
+						}
+						if name != "NewDirectiveType" && name != "Type" {
+							okSrc = false
+						}
+					}
+					return true
+				})
+				if !okSrc {
+					why = "the key " + id.Name + " is assigned from something other than NewDirectiveType / Type()"
+				}
+			default:
+				why = "the key is " + exprString(l.key)
+			}
+			if why == "" {
+				r.Ok(rule, key, "keyed by the kind of the directive at hand", c.pos(l.ifs.Pos()))
+			} else {
+				r.Bad(rule, key, why+": the ban of one kind refuses a directive of another kind - a project in which the banned kind does not occur no longer builds as without the option", c.pos(l.ifs.Pos()))
+			}
+		}
+	}
+	if n < 3 {
+		r.Undecided(rule, "sites", fmt.Sprintf("only %d lookups of the ban set found", n), "")
+	}
+}
